@@ -113,11 +113,29 @@ class Ob:
 
 class JobResult:
     def __init__(s):
-        s.obs = []; s.paths = 0; s.instrs = 0; s.validated = 0; s.queries = 0; s.solver_s = 0.0; s.funcs = {}; s.log = []; s.error = None; s.memsafety = []
+        s.obs = []; s.paths = 0; s.instrs = 0; s.validated = 0; s.queries = 0; s.solver_s = 0.0; s.funcs = {}; s.log = []; s.error = None; s.memsafety = []; s.xc = {'agree': 0, 'disagree': 0, 'no_answer': 0}
 
 def solve(solver, timeout_ms=60000):
     solver.set('timeout', timeout_ms)
     t = time.time(); r = solver.check(); return r, time.time() - t
+
+CVC5 = '/usr/bin/cvc5'
+def crosscheck(res, s, r):
+    """second opinion on a sample of the queries: the same assertions as SMT-LIB2 text to cvc5 (10 s).  Agreement / disagreement / no answer are counted in the evidence;
+    a disagreement (one solver says sat, the other unsat) makes the obligation inconclusive."""
+    n = getattr(res, 'xc_budget', None)
+    if n is None: n = res.xc_budget = int(os.environ.get('VERIF_CVC5', '2'))      # queries per job that also go to cvc5
+    if n <= 0 or not os.path.exists(CVC5) or r not in (z3.sat, z3.unsat): return None
+    res.xc_budget = n - 1
+    txt = '(set-logic ALL)\n' + s.sexpr() + '\n(check-sat)\n'
+    try:
+        o = subprocess.run([CVC5, '--lang=smt2', '--tlimit=10000', '-'], input=txt, capture_output=True, text=True, timeout=20)
+        ans = (o.stdout.strip().split('\n') or [''])[-1].strip()
+    except Exception: ans = 'timeout'
+    xc = res.__dict__.setdefault('xc', {'agree': 0, 'disagree': 0, 'no_answer': 0})
+    if ans not in ('sat', 'unsat') or '(error' in (o.stdout + o.stderr if 'o' in dir() else ''): xc['no_answer'] += 1; return None
+    if (ans == 'sat') == (r == z3.sat): xc['agree'] += 1; return True
+    xc['disagree'] += 1; return False
 
 def prove(res, name, assumptions, negated_goal, timeout_ms=60000, key=None, cex_fn=None, kind='property'):
     """discharge one obligation: unsat(assumptions & negated_goal) == holds.  A model is turned into a cex by cex_fn(model)."""
@@ -126,6 +144,8 @@ def prove(res, name, assumptions, negated_goal, timeout_ms=60000, key=None, cex_
     s.add(negated_goal)
     r, dt = solve(s, timeout_ms)
     res.queries += 1; res.solver_s += dt
+    if crosscheck(res, s, r) is False:
+        ob = Ob(name, 'inconclusive', dt, detail='z3 says %s, cvc5 disagrees' % r, key=key, kind=kind); res.obs.append(ob); return ob
     if r == z3.unsat: ob = Ob(name, 'holds', dt, key=key, kind=kind)
     elif r == z3.sat:
         m = s.model()
@@ -252,6 +272,7 @@ class Check:
                 'inconclusive': len(inconc), 'job_errors': len(errors), 'known_findings_matched': nknown,
                 'encoding_mismatches': mismatch,
                 'queries': sum(r.queries for r in self.results), 'solver_s': round(sum(r.solver_s for r in self.results), 2),
+                'cvc5_crosscheck': {k: sum(getattr(r, 'xc', {}).get(k, 0) for r in self.results) for k in ('agree', 'disagree', 'no_answer')},
                 'functions_encoded': funcs, 'bounds': self.bounds, 'stubs': self.stubs, 'jobs': len(self.results),
                 'exhaustive': False,
                 'explanation': 'bounded symbolic execution of the real LLVM IR (clang-14 -O1) on native memory snapshots; every obligation is an unsat query to z3 over all values within the bounds',
